@@ -19,7 +19,8 @@
 (* caller receives values equal to those returned; an error or panic of    *)
 (* the function reaches the caller as an error with the same message; an   *)
 (* unknown name without missing-method handler is an error and nothing is  *)
-(* invoked.                                                                *)
+(* invoked.  publish(lname, fn) / unpublish(lname): the table changes      *)
+(* between calls (lname "*" is the missing-method handler).                *)
 (***************************************************************************)
 EXTENDS Integers, Sequences, FiniteSets, TLC
 
@@ -64,5 +65,16 @@ RCStep(s, e) ==
                  THEN IF e.kind = "values" /\ (HF!SameValue(o.vals, e.vals, {}) \/ (e.raw /\ RawShape(o.vals, e.vals)))
                       THEN {[s EXCEPT !.cur = <<>>]} ELSE {}
                  ELSE IF e.kind = "error" /\ e.msg = o.msg THEN {[s EXCEPT !.cur = <<>>]} ELSE {}
+      \* the method table changes while the service runs (between calls): publish a function under a name
+      \* (the last one published under a lower-cased name wins), take a name out, publish / remove the
+      \* missing-method handler
+      [] e.ev = "publish" ->
+            IF s.cur # <<>> THEN {}
+            ELSE IF e.lname = "*" THEN {[s EXCEPT !.missing = TRUE]}
+            ELSE {[s EXCEPT !.table = (e.lname :> e.fn) @@ [k \in (DOMAIN s.table) \ {e.lname} |-> s.table[k]]]}
+      [] e.ev = "unpublish" ->
+            IF s.cur # <<>> THEN {}
+            ELSE IF e.lname = "*" THEN {[s EXCEPT !.missing = FALSE]}
+            ELSE {[s EXCEPT !.table = [k \in (DOMAIN s.table) \ {e.lname} |-> s.table[k]]]}
       [] OTHER -> {}
 =============================================================================
